@@ -3437,6 +3437,14 @@ def cli_main():
         path = os.path.join(root, 'definitions')
         include_dirs.append(path)
 
+    # validate the Intel HEX offset up front (before any output file is written)
+    hex_offset = None
+    if args.hex_offset:
+        try:
+            hex_offset = int(args.hex_offset, base=0)
+        except:
+            raise SystemExit('invalid hex offset: {}'.format(args.hex_offset))
+
     constants = {}
     labels = {}
     try:
@@ -3465,12 +3473,7 @@ def cli_main():
     if args.hex_offset:
         from intelhex import bin2hex
 
-        try:
-            offset = int(args.hex_offset, base=0)
-        except:
-            raise SystemExit('invalid hex offset: {}'.format(args.hex_offset))
-
-        bin2hex(args.output, args.output + '.hex', offset)
+        bin2hex(args.output, args.output + '.hex', hex_offset)
 
 
 if __name__ == '__main__':
